@@ -66,7 +66,7 @@ def run(F, S, R, tier):
                 R.bad("prov/body-keys", "delete_block_body is not keyed by the frozen map", [c.where()])
         for c in wo.calls_to(WB + "delete_block$"):
             srcs = wo.operand_sources(c.args[2])
-            if K.src_match(srcs, [r"var:side"]) and not K.src_match(srcs, [r"param:frozen$"]) or K.src_match(srcs, [r"call:.*BTreeMap::<.*>::new$"]):
+            if K.src_match(srcs, [r"vty:alloc::collections::btree::map::BTreeMap<.*Byte32, \(ckb_gen_types::generated::blockchain::Uint64, u32\)>$"]) and not K.src_match(srcs, [r"param:frozen$"]) or K.src_match(srcs, [r"call:.*BTreeMap::<.*>::new$"]):
                 R.ok("prov/whole-block-keys", "whole-block deletion is keyed by the side-chain map only", [c.where()])
             else:
                 R.bad("prov/whole-block-keys", "delete_block (header included) can be applied to a main-chain hash", [c.where()])
